@@ -390,6 +390,15 @@ func (e *Engine) builtin(st *State, fr *Frame, x *ssa.Call, b *ssa.Builtin, args
 		if a, ok := args[0].(VSlice); ok {
 			return nil, VInt{a.Cap}
 		}
+	case "close":
+		ch := args[0].(VChan)
+		e.chanAssumption(fr)
+		h := e.heap(st, chanHeap, RowB)
+		e.oblige(st, "nil@close", "", e.ordinal(x), Ne(ch.Id, Zero), "close of a nil channel panics", x.Pos())
+		e.oblige(st, "chan@close", "", e.ordinal(x), Not(Select(h, ch.Id)), "close of an already closed channel panics", x.Pos())
+		e.setHeap(st, chanHeap, Store(h, ch.Id, True))
+		st.calls = append(st.calls, callRec{target: "close", args: []Val{ch}, seq: len(st.calls)})
+		return nil, VTuple{}
 	case "copy":
 		dst := args[0].(VSlice)
 		n := e.copyInto(st, fr, x, dst, args[1])
@@ -547,6 +556,23 @@ func (e *Engine) invoke(st *State, fr *Frame, x *ssa.Call, recv Val, m *types.Fu
 	it := m.Type().(*types.Signature).Recv().Type()
 	name := it.String()
 	key := "(" + name + ")." + m.Name()
+	if iv, ok := recv.(VIface); ok && (key == "(context.Context).Done" || key == "(context.Context).Err") {
+		// context.Context: Done() is one channel per context value, closed on cancellation; Err() is non-nil once it is closed
+		e.Assumptions["context.Context: Done() returns the same channel on every call, it is only ever closed, and Err() is non-nil once it is closed (package documentation)"] = true
+		done := App("ctx$done", IntS, iv.Tag, iv.Data)
+		var res []Val
+		if m.Name() == "Done" {
+			res = []Val{VChan{Id: done}}
+		} else {
+			e.chanInterference(st)
+			er := e.fresh("ctxerr", IntS)
+			st.assume(Ge(er, Zero))
+			st.assume(Implies(Select(e.heap(st, chanHeap, RowB), done), Ne(er, Zero)))
+			res = []Val{VErr{er}}
+		}
+		st.calls = append(st.calls, callRec{target: m.Name(), args: append([]Val{recv}, args...), res: res, seq: len(st.calls)})
+		return tupleOf(res)
+	}
 	var spec *FuncSpec
 	if e.Std != nil {
 		spec = e.Std.Funcs[key]
@@ -717,6 +743,7 @@ func (e *Engine) applyContractSig(st *State, fr *Frame, x *ssa.Call, name string
 	if spec.ModAny {
 		panic(unsupported("call to " + name + " whose contract says 'modifies anything'"))
 	}
+	e.chanInterference(st)
 	oldHeaps := copyHeaps(st.heaps)
 	oldAlloc := st.alloc
 	// havoc the frame (all regions are evaluated in the pre-state first)
@@ -929,4 +956,18 @@ func mentions(x Expr, names []string) bool {
 	}
 	walk(x)
 	return found
+}
+
+const chanHeap = "CH$closed"
+
+// chanInterference: other goroutines may close channels at any time; a closed channel stays closed.
+func (e *Engine) chanInterference(st *State) {
+	h, ok := st.heaps[chanHeap]
+	if !ok {
+		return
+	}
+	nh := e.fresh(chanHeap, RowB)
+	c := Var("q_ch", IntS)
+	st.assume(Forall([]*Term{c}, [][]*Term{{Select(nh, c)}}, Implies(Select(h, c), Select(nh, c))))
+	st.heaps[chanHeap] = nh
 }
